@@ -88,6 +88,32 @@ CLAIMS = {
             'needing more than the declared packed size, produced size != declared size, short uncompressed chunk, missing end byte; '
             'the real decoder returns Err whenever the spec does (reject clauses on decompress / parse_lzma / parse_uncompressed).',
             'Verus refinement proofs on mechanically extracted real code', '5 C17'),
+    'C05': (True,
+            'Unbounded deductive proof (Verus) over ALL chunkings via a per-call invariant: Stream::inv(fed, sink0) relates the concrete stream '
+            'state to the one-shot spec decoder after the accepted bytes `fed` (out_eq: under every continuation both decode to the same verdict '
+            'and output). new_with_options establishes it for the empty history, write(data)=Ok(n) takes inv(fed) to inv(fed + data[..n]) for '
+            'every fed (so for every sequence of calls, by induction at the client), flush preserves it, and finish answers with '
+            'sp_lzma_oneshot(fed): spec None => Err; Ok(w) => w.written() == spec output; zero input => Ok(empty). The one-shot entry point '
+            'lzma_decompress_with_options is verified against the same spec function. Underneath: DecoderState::process_mode verified in Partial '
+            'mode (dry run changes nothing; carried-over bytes are conserved; every real step on a look-ahead buffer is the step of the one-shot '
+            'decoder by input-locality lemmas lemma_repl_*; after the end marker nothing decodes), header staging verified incl. the leftover move. '
+            'PROVED DIRECTION: stream accepts => one-shot accepts with identical output, and one-shot rejects => stream rejects; plus header phase '
+            'never refuses an acceptable incomplete header. NOT PROVED: that a data-phase write / finish never fails when the one-shot decoder '
+            'succeeds (needs the 20-byte bound on a symbol and dry-run == real-run agreement; see DESIGN.md).',
+            'Verus per-call invariant (ghost history universally quantified) + spec-level lemmas', '5 C05'),
+    'C15': (True,
+            'Unbounded deductive proof (Verus): Stream::lemma_prefix_of_every_completion: under the verified invariant, what the sink has received and '
+            'everything decoded so far is a prefix of the output of EVERY completion of the accepted bytes that the one-shot spec accepts; '
+            'write never shrinks or rewrites the sink (ST.write.mono); finish with allow_incomplete returns exactly the bytes decoded so far and '
+            'succeeds whenever the sink does (state is Data as soon as header + 5 bytes were accepted); a fragmented header is staged, not refused '
+            '(ST.hdr.retry, RH.errkind). NOT PROVED: the bounded lag (output keeps up with input minus 64 bytes), which needs the 20-byte symbol bound.',
+            'Verus per-call invariant + prefix lemma', '5 C15'),
+    'C16': (True,
+            'Unbounded deductive proof (Verus) on Stream::{write, flush, finish}: after any Err the state is None (the sink is gone), every later '
+            'write returns Ok(0) and leaves None, flush is a no-op, finish returns Err; once the size in effect has been produced write returns '
+            'Ok(0) and the sink is unchanged (process_mode: done-is-identity); wf() is preserved by every call on every exit, and every '
+            'arithmetic / index / slice operation in these functions is proved safe, so no call sequence panics.',
+            'Verus function contracts (latch clauses) + data-structure invariant', '5 C16'),
 }
 NOT_YET = 'check not built yet (build in progress; see DESIGN.md section 8)'
 
